@@ -150,6 +150,48 @@ func newStatusAnalysis(w *World, fns map[*ssa.Function]bool) *statusAnalysis {
 }
 
 // statusTest recognises `load(s.status) == K` / `!= K` conditions.
+// returnsStatusField: v is the result of a call of a Solver method every return of which hands back the status field
+// as it is at that moment (`for s.search() == Indet`): comparing the result is comparing the status.
+func returnsStatusField(v ssa.Value) bool {
+	c, ok := v.(*ssa.Call)
+	if !ok {
+		return false
+	}
+	f := c.Call.StaticCallee()
+	if f == nil || len(f.Blocks) == 0 || f.Signature.Results().Len() != 1 || typeShort(f.Signature.Results().At(0).Type()) != "solver.Status" {
+		return false
+	}
+	n, all := 0, true
+	allInstrs(f, func(ins ssa.Instruction) {
+		ret, isRet := ins.(*ssa.Return)
+		if !isRet || ret.Block() == f.Recover {
+			return
+		}
+		n++
+		rv := ret.Results[0]
+		// through a defer-spilled result cell
+		if u, isU := rv.(*ssa.UnOp); isU && u.Op == token.MUL {
+			if al, isAl := u.X.(*ssa.Alloc); isAl {
+				stores, zero := reachingStores(u, al, -1)
+				if zero || len(stores) == 0 {
+					all = false
+					return
+				}
+				for _, st := range stores {
+					if _, isF := isFieldLoad(st.Val, "solver.Solver", "status"); !isF {
+						all = false
+					}
+				}
+				return
+			}
+		}
+		if _, isF := isFieldLoad(rv, "solver.Solver", "status"); !isF {
+			all = false
+		}
+	})
+	return all && n > 0
+}
+
 func statusTest(cond ssa.Value) (k int64, eq bool, ok bool) {
 	bo, isB := cond.(*ssa.BinOp)
 	if !isB || (bo.Op != token.EQL && bo.Op != token.NEQ) {
@@ -159,7 +201,7 @@ func statusTest(cond ssa.Value) (k int64, eq bool, ok bool) {
 	if _, isC := x.(*ssa.Const); isC {
 		x, y = y, x
 	}
-	if _, isF := isFieldLoad(x, "solver.Solver", "status"); !isF {
+	if _, isF := isFieldLoad(x, "solver.Solver", "status"); !isF && !returnsStatusField(x) {
 		return 0, false, false
 	}
 	k, isK := constInt(y)
